@@ -15,7 +15,7 @@ from vlib import ber_ref as B
 from vlib import build, crypto_ref as C, model as M, runner
 
 PID = "C11"
-ASPECTS = ["priv", "priv_flag", "salt", "strict", "panic", "result", "oids", "pdu_tag", "outcome", "count", "oversize", "deaf"]
+ASPECTS = ["priv", "priv_flag", "salt", "strict", "panic", "result", "oids", "pdu_tag", "outcome", "count", "oversize", "deaf", "create"]
 
 
 def gen_history(rng, n):
